@@ -33,6 +33,19 @@ pub fn make_ctx_for(prop: &str, tier: Tier, seed: u64) -> Result<Ctx, String> {
             }
         }
     }
+    if prop == "C07" || prop == "C08" {
+        // dual-stream xls files (fixed names: the C07 single-fault sweep covers them and must not
+        // depend on VERIF_SEED)
+        let n = match tier {
+            Tier::Quick => 2u64,
+            Tier::Thorough => 6,
+        };
+        for i in 0..n {
+            if let Some(fx) = crate::synth::make(&format!("synth-{:016x}.dual.xls", 0xD0A1_0000u64 + i)) {
+                corpus.push(fx);
+            }
+        }
+    }
     Ok(Ctx { corpus, models: Models::default(), tier, seed, verbose: false, cpu_scale: 1, parts: Default::default(), sites: Default::default(), c06_layout: None, rotation: None, c07_sweep: None })
 }
 
